@@ -24,7 +24,8 @@ RULE = ("case = (option set {linear,voce,power law} x {rate independent, power-l
         "strains absolute or multiples of the yield strain; increments either in multiples of the yield strain or with absolute upper ends; either baked into "
         "the compiled model as Python floats (as a user does) or passed as traced arguments (one compilation, fresh constants per case); "
         "history kind in {monotonic, reversing, nonproportional, tiny_large (1e-8 / 0.3 increments), at_yield (trial Mises = flow "
-        "stress +- ulps / +- the 1e-10*Y0 yield tolerance), repeated_stretch, volumetric (zero / sub-threshold deviator)}; form in "
+        "stress +- ulps / +- the 1e-10*Y0 yield tolerance), repeated_stretch, volumetric (zero / sub-threshold deviator), large_stretch (principal stretches "
+        "0.1..10 in an arbitrary frame with rotations up to 180 degrees or simple shear up to 5, ramp or cyclic)}; form in "
         "{plane_strain, block, 3d}; 4 histories of 5-40 steps per case, dt in [1e-3,1e3] per step). Boundary classes: perfect "
         "plasticity (H=0), Voce with Ysat -> Y0, Voce driven far into saturation. Non-trivial = at least one step of the case "
         "advanced eqps (plastic) ; distinct = canonical hash of the case parameters.")
@@ -62,7 +63,8 @@ N4_KEY = "C09-N4:return-bracket-below-float-resolution"
 
 
 def _ri_nan_key(sig):
-    """Rate-independent non-finite result: N4 when the library's bracket spans <= 8 floats of eqps, else N2 (fixed)."""
+    """Rate-independent non-finite result: N4 when the margin of the library bracket beyond the root is <= 8 float
+    spacings of eqps, else N2 (fixed in /repo: suppresses nothing)."""
     if not sig.get("match"):
         return None
     if sig.get("bracket_floats", 1e9) <= 8.0:
@@ -113,6 +115,8 @@ def _required():
     for cls, _, _ in BOUNDARY:
         req["class:" + cls] = 10
     req["class:yield_strain_below_guard"] = 10
+    req["logstretch_gt1_steps"] = 300
+    req["logstretch_gt2_steps"] = 40
     req["guard_active_beyond_yield_steps"] = 30
     return req
 
@@ -164,7 +168,7 @@ def build_cases(tier, seed):
                     for kind in gen.KINDS:
                         for i in range(T["ct"]):
                             cr = rng_of(derive_seed(seed, PROPERTY, "tconsts", o, g, kind, i))
-                            band = gen.YS_BANDS[(n_traced + seed) % nband]
+                            band = gen.YS_BANDS[(n_traced + seed + oi) % nband]
                             n_traced += 1
                             add(kind, "%s/T%d" % (o, g), hard, rate, kin, "traced", gen.random_constants(cr, hard, rate, band=band), kind, g * 100000 + i, first)
                             first = False
@@ -277,6 +281,14 @@ def _check_step(res, case, law, fns, k, H, st_old, dt, st_new, tag, info, acc):
         res.count("opt:%s:plastic" % o)
     res.count("dt_decade_%d" % int(math.floor(math.log10(dt))))
     yb = case.get("ys_band", gen.ys_band(case["consts"]))
+    if tag == "large":
+        svF = onp.linalg.svd(tq["F"], compute_uv=False)
+        if svF[-1] > 0:
+            mlog = float(onp.max(onp.abs(onp.log(svF))))
+            if mlog > 1.0:
+                res.count("logstretch_gt1_steps")
+            if mlog > 2.0:
+                res.count("logstretch_gt2_steps")
     res.count("ys_band_%d:%s" % (yb, "plastic" if plastic else "elastic"))
     if 1e-8 < ndev_tr <= 1e-4:          # between the library's zero-strain guard (|dev Ee| = 1e-8) and 1e-4
         res.count("dev_strain_1e-8_to_1e-4:%s" % ("plastic" if plastic else "elastic"))
@@ -315,6 +327,8 @@ def _check_step(res, case, law, fns, k, H, st_old, dt, st_new, tag, info, acc):
             return None     # not a usable plastic distortion any more (violation recorded): the history ends here
         # conditioning of the elastic strain: Fe = F Fp^-1 is formed from factors that may be much larger than Fe itself
         condp = max(_norm2(pl_new), _norm2(tq["F"])) * _norm2(onp.linalg.inv(pl_new))
+        # ... and Fp_new = exp(D) Fp_old is itself a product of possibly large factors
+        condp = max(condp, _norm2(pl_new @ onp.linalg.inv(pl_old)) * _norm2(pl_old) * _norm2(onp.linalg.inv(pl_new)))
     else:
         # rounding bound: tr(N) of the computed flow direction is ~ eps*(|tr Ee|/3 + |Ee|)/|dev Ee| (cancellation when the
         # deviator is formed), accumulated over the plastic steps of this history; safety factor 16
